@@ -107,3 +107,19 @@ Proof. exact span_search_safe. Qed.
 Theorem C14_slop_freqs_safe : forall docs ix ts slop, wf_docs docs -> index_ok docs ix -> api_safe (slop_freqs ix ts slop).
 Proof. exact slop_freqs_safe. Qed.
 Print Assumptions C14_slop_freqs_safe.
+
+(* Assumptions of the remaining named statements of this file (the gate requires one per statement). *)
+Print Assumptions C14_merge.
+Print Assumptions C14_merge_drop.
+Print Assumptions C14_sort_merge_counts.
+Print Assumptions C14_unique.
+Print Assumptions C14_unique_empty_shifted_dead_load.
+Print Assumptions C14_reduce_at.
+Print Assumptions C14_popcount64_reduce.
+Print Assumptions C14_intersect_drop_terminates.
+Print Assumptions C14_intersect_keep_terminates.
+Print Assumptions C14_adjacent_terminates.
+Print Assumptions C14_intersect_with_adjacents_terminates.
+Print Assumptions C14_bm25_walk_fault_iff.
+Print Assumptions C14_bm25_call_site_index.
+Print Assumptions C14_span_search_terminates.
